@@ -53,6 +53,20 @@ def dump_files(paths):
 
 # ---------------------------------------------------------------------------------------------------------------------
 
+
+def same_identifier(t):
+    """`if KEYWORDS.contains(&x) { Ident::new_raw(x, ..) } else { Ident::new(x, ..) }` denotes the identifier x on both branches (a raw
+    identifier r#x *is* the identifier x): the choice collapses to Ident::new(x).  (new_raw panics on crate / self / super / Self / _, all
+    of which WGSL reserves.)"""
+    if t[0] != 'alt' or len(t[1]) < 2:
+        return t
+    vals = [v for _, v in t[1]]
+    if all(v[0] == 'call' and v[1] in ('Ident::new', 'Ident::new_raw') and v[2] for v in vals) and len({repr(v[2][0]) for v in vals}) == 1 \
+            and any(v[1] == 'Ident::new_raw' for v in vals):
+        return ('call', 'Ident::new', vals[0][2][:1])
+    return t
+
+
 BOOL_METHODS = ('any', 'all', 'contains', 'contains_key', 'is_some', 'is_none', 'is_empty', 'is_ok', 'is_err', 'starts_with', 'ends_with', 'eq', 'ne',
                 'is_some_and', 'is_none_or', 'insert_bool')
 
@@ -1254,7 +1268,7 @@ class Interp:
             arms += b[1]
         else:
             arms.append((TRUE, b))
-        return ('alt', arms)
+        return same_identifier(('alt', arms))
 
     def effect_at(self, c, kind, **kw):
         self.frame['conds'].append(c)
@@ -1286,7 +1300,7 @@ class Interp:
                 self.effect_at(full, 'diverge', what=v[1], line=v[2])
             arms.append((c, v))
             prior.append(c)
-        return ('alt', arms)
+        return same_identifier(('alt', arms))
 
     def assigned_locals(self, node, out):
         if isinstance(node, dict):
@@ -1624,6 +1638,8 @@ class Interp:
                 return ('tuple', [args[0]])
             if last == 'new' and len(segs) >= 2 and segs[-2] == 'Ident':
                 return ('call', 'Ident::new', args[:1])
+            if last == 'new_raw' and len(segs) >= 2 and segs[-2] == 'Ident':
+                return ('call', 'Ident::new_raw', args[:1])
             if last in ('call_site',) and len(segs) >= 2 and segs[-2] == 'Span':
                 return ('call', 'Span::call_site', [])
             if len(segs) >= 2 and segs[-2] == 'Literal' and not p.startswith('naga::'):
